@@ -3,11 +3,12 @@
 import importlib, json, os, sys
 sys.path.insert(0, os.path.dirname(os.path.abspath(__file__)))
 props = [json.loads(l) for l in open('properties.jsonl')]
+READY = set(open('READY_CHECKS').read().split())
 checks, na = [], []
 for p in props:
     pid = p['id']
     path = f'bpverif/checks/{pid.lower()}.py'
-    if not os.path.exists(path):
+    if not os.path.exists(path) or pid not in READY:
         na.append({"property_id": pid, "reason": "check not built yet (work in progress; see DESIGN.md section 7 for the planned generated-input check)"})
         continue
     mod = importlib.import_module(f'bpverif.checks.{pid.lower()}')
